@@ -427,6 +427,157 @@ class Gen:
             return True
         return False
 
+    # ---- patterns added for coverage: termination / ranking functions, wrap_assign, linear_partition, box bounds,
+    #      powerset iterators / disjuncts / certificate widenings (valid calls + a few ill-formed ones)
+    def emit_more(self, name, params):
+        D = self.D
+        ptypes = [p[0] for p in params]
+        R = self.recipes
+        m = re.match(r"ppl_(termination_test|one_affine_ranking_function|all_affine_ranking_functions)_(MS|PR)_(C_|NNC_)?%s(_2)?$" % re.escape(D), name)
+        if m:
+            kind, meth, top, two = m.group(1), m.group(2), m.group(3) or "", bool(m.group(4))
+            off = 8 if top == "NNC_" else 0
+            TT = (top + "Polyhedron") if self.is_poly else "Dom::T"
+            fn = "%s_%s%s" % (kind, meth, "_2" if two else "")
+            # (recipe of pset / before, extra dims of pset / after, tag): valid shapes first, then a dimension mismatch
+            shapes = [(1, 2, "ok"), (2, 2, "ok2"), (1, 1, "baddim")] if two else [(1, 2, "ok"), (3, 2, "ok3"), (5, 0, "odd")]
+            for r, add, tag in shapes:
+                self.w("  { Dom::T* proto = Dom::make(%d);" % (r + off))
+                if two:
+                    self.w("    Dom::T* pa = Dom::make(%d); pa->add_space_dimensions_and_embed(%d); cif::Obj<Dom> after(*pa); delete pa;" % (r + off, add))
+                    cargs, margs = "h, after.ch()", "static_cast<const %s&>(t), static_cast<const %s&>(after.t())" % (TT, TT)
+                else:
+                    self.w("    proto->add_space_dimensions_and_embed(%d);" % add)
+                    cargs, margs = "h", "static_cast<const %s&>(t)" % TT
+                if kind == "termination_test":
+                    self.w("    cif::run_self<Dom>(\"%s\", \"%s\", *proto, false, [&](Dom::H h) { return %s(%s); }," % (name, tag, name, cargs))
+                    self.w("      [&](Dom::T& t) { return RET(Parma_Polyhedra_Library::%s(%s)); }); delete proto; }" % (fn, margs))
+                elif kind == "one_affine_ranking_function":
+                    self.w("    cif::CGen g(1, 1, 0); Generator mg = point(); int mres = 0;")
+                    self.w("    cif::run_self<Dom>(\"%s\", \"%s\", *proto, false, [&](Dom::H h) { return %s(%s, g.h); }," % (name, tag, name, cargs))
+                    self.w("      [&](Dom::T& t) { mres = RET(Parma_Polyhedra_Library::%s(%s, mg)); return mres; }, nullptr," % (fn, margs))
+                    self.w("      [&]() -> bool { return mres == 0 || cif::xdump(cif::cxx((ppl_const_Generator_t) g.h)) == cif::xdump(mg); }); delete proto; }")
+                else:
+                    OT = "C_Polyhedron" if meth == "MS" else "NNC_Polyhedron"
+                    self.w("    %s* out = new %s(0); %s mout(0);" % (OT, OT, OT))
+                    self.w("    cif::run_self<Dom>(\"%s\", \"%s\", *proto, false, [&](Dom::H h) { return %s(%s, reinterpret_cast<ppl_Polyhedron_t>(static_cast<Polyhedron*>(out))); }," % (name, tag, name, cargs))
+                    self.w("      [&](Dom::T& t) { Parma_Polyhedra_Library::%s(%s, mout); return 0; }, nullptr," % (fn, margs))
+                    self.w("      [&]() -> bool { return *out == mout; }); delete out; delete proto; }")
+            return True
+        if name == "ppl_%s_wrap_assign" % D and len(params) == 9:
+            # (ds, width, representation, overflow, with cs?, individually, tag)
+            V = [("{0}", "PPL_BITS_8", "PPL_UNSIGNED", "PPL_OVERFLOW_WRAPS", 0, 1, "ok"),
+                 ("{0, 1}", "PPL_BITS_16", "PPL_SIGNED_2_COMPLEMENT", "PPL_OVERFLOW_WRAPS", 1, 0, "cs-collective"),
+                 ("{1}", "PPL_BITS_8", "PPL_SIGNED_2_COMPLEMENT", "PPL_OVERFLOW_UNDEFINED", 0, 1, "undefined"),
+                 ("{0}", "PPL_BITS_32", "PPL_UNSIGNED", "PPL_OVERFLOW_IMPOSSIBLE", 1, 1, "impossible-cs"),
+                 ("{0, 7}", "PPL_BITS_8", "PPL_UNSIGNED", "PPL_OVERFLOW_WRAPS", 0, 1, "dim7"),
+                 ("{0}", "PPL_BITS_8", "PPL_UNSIGNED", "PPL_OVERFLOW_WRAPS", 2, 1, "cs-dim6")]
+            W = {"PPL_BITS_8": "BITS_8", "PPL_BITS_16": "BITS_16", "PPL_BITS_32": "BITS_32"}
+            Rp = {"PPL_UNSIGNED": "UNSIGNED", "PPL_SIGNED_2_COMPLEMENT": "SIGNED_2_COMPLEMENT"}
+            O = {"PPL_OVERFLOW_WRAPS": "OVERFLOW_WRAPS", "PPL_OVERFLOW_UNDEFINED": "OVERFLOW_UNDEFINED", "PPL_OVERFLOW_IMPOSSIBLE": "OVERFLOW_IMPOSSIBLE"}
+            for ds, w_, r_, o_, cs, ind, tag in V:
+                for r in (R if tag == "ok" else R[:1]):
+                    self.w("  { Dom::T* proto = Dom::make(%d); cif::DimArr a(%s); cif::CCS cs(3, %s, 2, 0);" % (r, ds, "6" if cs == 2 else "2"))
+                    self.w("    ppl_const_Constraint_System_t hcs = %s; const Constraint_System* mcs = %s;" %
+                           ("cs.h" if cs else "0", "&cif::cxx((ppl_const_Constraint_System_t) cs.h)" if cs else "0"))
+                    self.w("    cif::run_self<Dom>(\"%s\", \"%s/r%d\", *proto, true," % (name, tag, r))
+                    self.w("      [&](Dom::H h) { return %s(h, a.p(), a.n(), %s, %s, %s, &hcs, 16, %d); }," % (name, w_, r_, o_, ind))
+                    self.w("      [&](Dom::T& t) { t.wrap_assign(a.vs(), %s, %s, %s, mcs, 16, %s); return 0; }); delete proto; }" %
+                           (W[w_], Rp[r_], O[o_], "true" if ind else "false"))
+            return True
+        if name == "ppl_%s_linear_partition" % D and len(params) == 4:
+            dang = name in self.dangling
+            for r, ry, tag in ((1, 2, "ok"), (2, 3, "ok2"), (1, 5, "ydim3")):
+                self.w("  { Dom::T* proto = Dom::make(%d); cif::Obj<Dom> y(%d); Dom::H pi = 0; ppl_Pointset_Powerset_NNC_Polyhedron_t pr = 0;" % (r, ry))
+                self.w("    Dom::T* mi = 0; Pointset_Powerset<NNC_Polyhedron>* mr = 0;")
+                TT = "Dom::T"
+                call = "linear_partition(t, y.t())"
+                if self.is_poly:
+                    call = "linear_partition(static_cast<const C_Polyhedron&>(t), static_cast<const C_Polyhedron&>(y.t()))"
+                    TT = "C_Polyhedron"
+                self.w("    cif::run_self<Dom>(\"%s\", \"%s%s\", *proto, false, [&](Dom::H h) { return %s(h, y.ch(), &pi, &pr); }," % (name, tag, "-dangling-not-dereferenced" if dang else "", name))
+                self.w("      [&](Dom::T& t) { std::pair<%s, Pointset_Powerset<NNC_Polyhedron> > r = %s; delete mi; delete mr; mi = 0; mr = 0; mi = Dom::clone(r.first); mr = new Pointset_Powerset<NNC_Polyhedron>(r.second); return 0; }, nullptr," % (TT, call))
+                if dang:
+                    self.w("      nullptr, false);     // the outputs are addresses of a destroyed local: never dereferenced")
+                else:
+                    self.w("      [&]() -> bool { bool ok = pi != 0 && pr != 0 && Dom::cxx((Dom::CH) pi) == *mi && *reinterpret_cast<Pointset_Powerset<NNC_Polyhedron>*>(pr) == *mr; if (pi) Dom::cdel(pi); if (pr) delete reinterpret_cast<Pointset_Powerset<NNC_Polyhedron>*>(pr); pi = 0; pr = 0; return ok; }, false);")
+                self.w("    delete mi; delete mr; delete proto; }")
+            return True
+        m = re.match(r"ppl_%s_has_(upper|lower)_bound$" % re.escape(D), name)
+        if m and len(params) == 5:
+            for r in R + [4]:
+                for var in (0, 1, 7):
+                    self.w("  { Dom::T* proto = Dom::make(%d); cif::CCoef n(77), d(78); Coefficient mn(77), md(78); int cl = 5; bool mcl = false; int mres = 0;" % r)
+                    self.w("    cif::run_self<Dom>(\"%s\", \"r%d-var%d\", *proto, false, [&](Dom::H h) { return %s(h, %d, n.h, d.h, &cl); }," % (name, r, var, name, var))
+                    self.w("      [&](Dom::T& t) { mres = RET(t.has_%s_bound(Variable(%d), mn, md, mcl)); return mres; }, nullptr," % (m.group(1), var))
+                    self.w("      [&]() -> bool { return mres == 0 || (cif::cxx((ppl_const_Coefficient_t) n.h) == mn && cif::cxx((ppl_const_Coefficient_t) d.h) == md && (cl != 0) == mcl); }); delete proto; }")
+            return True
+        if not D.startswith("Pointset_Powerset_"):
+            return False
+        ELEM = "Dom::T::element_type"
+        if name == "ppl_%s_add_disjunct" % D and len(params) == 2:
+            dh = params[1][0]
+            for r, dim, tag in ((1, 2, "ok"), (2, 2, "ok2"), (1, 3, "dim3")):
+                self.w("  { Dom::T* proto = Dom::make(%d); %s e(%d); cif::refine_recipe(e, 3, %d, 2);" % (r, ELEM, dim, dim))
+                self.w("    cif::run_self<Dom>(\"%s\", \"%s\", *proto, true, [&](Dom::H h) { return %s(h, reinterpret_cast<%s>(&e)); }," % (name, tag, name, dh))
+                self.w("      [&](Dom::T& t) { t.add_disjunct(e); return 0; }); delete proto; }")
+            return True
+        m = re.match(r"ppl_%s_BHZ03_(\w+?)_(\w+?)_widening_assign$" % re.escape(D), name)
+        m2 = re.match(r"ppl_%s_BGP99_(\w+?)_extrapolation_assign$" % re.escape(D), name)
+        if m or m2:
+            for r in R[:3]:
+                ry = self.y_recipe(r)
+                self.w("  { Dom::T* proto = Dom::make(%d); cif::Obj<Dom> y(%d); proto->upper_bound_assign(y.t());" % (r, ry))
+                if m:
+                    call, mir = "%s(h, y.ch())" % name, "t.BHZ03_widening_assign<%s_Certificate>(y.t(), widen_fun_ref(&%s::%s_widening_assign))" % (m.group(1), ELEM, m.group(2))
+                else:
+                    call, mir = "%s(h, y.ch(), 2)" % name, "t.BGP99_extrapolation_assign(y.t(), widen_fun_ref(&%s::%s_widening_assign), 2)" % (ELEM, m2.group(1))
+                self.w("    cif::run_self<Dom>(\"%s\", \"ok/r%d\", *proto, true, [&](Dom::H h) { return %s; }," % (name, r, call))
+                self.w("      [&](Dom::T& t) { %s; return 0; }); delete proto; }" % mir)
+            return True
+        if name == "ppl_new_%s_iterator" % D:
+            # one composite walk drives every iterator / const_iterator entry and drop_disjunct(s)
+            pm = {p["name"]: p for p in self.protos}
+            need = ["ppl_new_%s_%s" % (D, k) for k in ("iterator", "const_iterator", "iterator_from_iterator", "const_iterator_from_const_iterator")] + \
+                   ["ppl_%s_%s_%s" % (D, k, op) for k in ("iterator", "const_iterator") for op in ("begin", "end", "equal_test", "increment", "decrement", "dereference")] + \
+                   ["ppl_delete_%s_iterator" % D, "ppl_delete_%s_const_iterator" % D, "ppl_%s_drop_disjunct" % D, "ppl_%s_drop_disjuncts" % D]
+            if any(n not in pm for n in need):
+                return False
+            dh = self.parse_params(pm["ppl_%s_iterator_dereference" % D]["params"])[1][0].rstrip("*")
+            w = self.w
+            w("  for (int pass = 0; pass < 2; ++pass) { cif::quiet = (pass == 0); long base = cif::live; {")
+            w("    Dom::T* proto = Dom::make(1); for (int k = 2; k <= 3; ++k) { std::unique_ptr<Dom::T> o(Dom::make(k)); for (Dom::T::const_iterator i = o->begin(); i != o->end(); ++i) proto->add_disjunct(i->pointset()); }")
+            w("    cif::Obj<Dom> s(*proto); Dom::T* twin = Dom::clone(*proto); delete proto; int r; %s d = 0;" % dh)
+            w("#define CIF_STEP(NAME, CALL, MV, OK) cif::seen.clear(); r = (CALL); cif::emit(\"T\", NAME, \"composite\", \"ret\", (MV), r, -1, 1, 1, (OK) ? 1 : 0, 0, \"\");")
+            for kind in ("iterator", "const_iterator"):
+                K = "%s_%s" % (D, kind)
+                HT, CHT = "ppl_%s_t" % K, "ppl_const_%s_t" % K
+                TI = "Dom::T::%s" % kind
+                sh = "s.h" if kind == "iterator" else "s.ch()"
+                tw = "twin" if kind == "iterator" else "static_cast<const Dom::T*>(twin)"
+                w("    { %s it = 0, en = 0, cp = 0; %s ti = %s->begin(); size_t n = 0;" % (HT, TI, tw))
+                w("      CIF_STEP(\"ppl_new_%s\", ppl_new_%s(&it), 0, it != 0) CIF_STEP(\"ppl_new_%s\", ppl_new_%s(&en), 0, en != 0)" % (K, K, K, K))
+                w("      CIF_STEP(\"ppl_%s_begin\", ppl_%s_begin(%s, it), 0, true) CIF_STEP(\"ppl_%s_end\", ppl_%s_end(%s, en), 0, true)" % (K, K, sh, K, K, sh))
+                w("      for (;;) { int at_end = (ti == %s->end()) ? 1 : 0; CIF_STEP(\"ppl_%s_equal_test\", ppl_%s_equal_test(it, en), at_end, true) if (r != 0 || at_end) break;" % (tw, K, K))
+                w("        d = 0; CIF_STEP(\"ppl_%s_dereference\", ppl_%s_dereference(it, &d), 0, d != 0 && cif::xdump(*reinterpret_cast<const %s*>(d)) == cif::xdump(ti->pointset()))" % (K, K, ELEM))
+                w("        CIF_STEP(\"ppl_%s_increment\", ppl_%s_increment(it), 0, true) ++ti; ++n; }" % (K, K))
+                w("      CIF_STEP(\"ppl_%s_decrement\", ppl_%s_decrement(it), 0, n == twin->size()) --ti;" % (K, K))
+                w("      d = 0; CIF_STEP(\"ppl_%s_dereference\", ppl_%s_dereference(it, &d), 0, d != 0 && cif::xdump(*reinterpret_cast<const %s*>(d)) == cif::xdump(ti->pointset()))" % (K, K, ELEM))
+                w("      CIF_STEP(\"ppl_new_%s_from_%s\", ppl_new_%s_from_%s(&cp, it), 0, cp != 0) CIF_STEP(\"ppl_%s_equal_test\", ppl_%s_equal_test(cp, it), 1, true)" % (K, kind, K, kind, K, K))
+                if kind == "iterator":
+                    w("      CIF_STEP(\"ppl_%s_drop_disjunct\", ppl_%s_drop_disjunct(s.h, it, cp), 0, true) ti = twin->drop_disjunct(ti);" % (D, D))
+                    w("      CIF_STEP(\"ppl_%s_equal_test\", ppl_%s_equal_test(cp, en), (ti == twin->end()) ? 1 : 0, s.dump() == cif::xdump(*twin))" % (K, K))
+                    w("      ppl_%s_begin(s.h, it); ppl_%s_end(s.h, en); ppl_%s_decrement(en); Dom::T::iterator te = twin->end(); --te;" % (K, K, K))
+                    w("      CIF_STEP(\"ppl_%s_drop_disjuncts\", ppl_%s_drop_disjuncts(s.h, it, en), 0, true) twin->drop_disjuncts(twin->begin(), te);" % (D, D))
+                    w("      cif::seen.clear(); cif::emit(\"T\", \"ppl_%s_drop_disjuncts\", \"composite-result\", \"ret\", 0, 0, (s.dump() == cif::xdump(*twin)) ? 1 : 0, 1, (ppl_%s_OK(s.ch()) > 0) ? 1 : 0, 1, 0, \"\");" % (D, D))
+                w("      CIF_STEP(\"ppl_delete_%s\", ppl_delete_%s(it), 0, true) CIF_STEP(\"ppl_delete_%s\", ppl_delete_%s(en), 0, true) CIF_STEP(\"ppl_delete_%s\", ppl_delete_%s(cp), 0, true) }" % (K, K, K, K, K, K))
+            w("#undef CIF_STEP")
+            w("    delete twin; }")
+            w("    if (!cif::quiet && cif::live != base) std::printf(\"L|ppl_new_%s_iterator|composite|iterator walk leaked %%ld blocks\\n\", cif::live - base); }" % D)
+            self.composite = [n for n in need if n != name]
+            return True
+        return False
+
     def generate(self):
         D = self.D
         w = self.w
@@ -465,7 +616,7 @@ class Gen:
             w("static void t_%s() {" % name)
             ok = False
             try:
-                ok = self.emit_special(name, params) or self.emit_new(name, params) or \
+                ok = self.emit_special(name, params) or self.emit_more(name, params) or self.emit_new(name, params) or \
                      (name.startswith("ppl_%s_" % D) and self.emit_generic(name, params))
             except Exception as e:      # a pattern that does not fit: leave the entry undriven
                 ok = False
@@ -477,6 +628,10 @@ class Gen:
                 w("}")
                 fns.append("t_" + name)
                 self.fn_ranges.append(("t_" + name, n0, len(self.out)))
+        # entries driven inside a composite case are not "undriven"
+        comp = set(getattr(self, "composite", []))
+        self.driven += [n for n in self.undriven if n in comp]
+        self.undriven = [n for n in self.undriven if n not in comp]
         w("int main() {")
         w("  setvbuf(stdout, 0, _IOLBF, 1 << 16);")
         w("  if (ppl_initialize() != 0) { std::printf(\"X|ppl_initialize|failed\\n\"); return 2; }")
